@@ -402,6 +402,9 @@ def add(node: ir.Node, op, state: OptimizerState) -> ReturnValue:
     if isinstance(dim0, int) and isinstance(dim1, int):
         result_dim_value: int | ir.SymbolicDim = dim0 + dim1
     else:
+        # Symbolic dims are assumed non-negative (see Abs): N + c with c < 0 does not keep that invariant.
+        if (isinstance(dim0, int) and dim0 < 0) or (isinstance(dim1, int) and dim1 < 0):
+            return None
         result_dim_value = ir.SymbolicDim(f"{dim0}+{dim1}")
     output = _get_output(node, 0)
     if output is not None:
